@@ -449,6 +449,14 @@ def r15_9(run, model):
         cond = [w for w in writes if any(a["k"] in ("If", "Match", "While", "For", "Closure", "Loop") for a in par.ancestors(w))]
         paths = {S.norm_ws(run.facts.text(MAIN, w["args"][0]["sp"])) for w in writes if w["args"]}
         run.ob("R15.9", f"{name}|writes {want} artifact file(s)", len(paths) >= want, site(MAIN, f.node["sp"]), f"fs::write targets: {sorted(paths)}")
+        last = max(((w["sp"][0], w["sp"][1]) for w in writes), default=(0, 0))
+        early = [r for r in S.walk_no_closures(f.body) if r["k"] == "Return" and r.get("expr") is not None and S.callee_name(r["expr"]) == "Ok" and
+                 (r["sp"][0], r["sp"][1]) < last]
+        run.ob("R15.9", f"{name}|no successful exit before the artifacts are written", not early, site(MAIN, (early or [f.node])[0]["sp"]),
+               f"{len(early)} `return Ok(..)` before the last write",
+               witness="a make-style freshness test that returns early when the outputs are newer than the package's own sources ignores the "
+                       "interfaces of its dependencies: after an interface-changing edit of Lib, `build Main` keeps the old Main.core and link "
+                       "answers `rebuild Main` however often it is rebuilt")
         run.ob("R15.9", f"{name}|every artifact write is unconditional", not cond, site(MAIN, (cond or [f.node])[0]["sp"]),
                f"{len(writes)} write(s), {len(cond)} inside a conditional or loop",
                witness="build Lib v1, build Main, edit Lib, check Lib, undo the edit, build Lib, build Main, link: Lib.interface keeps the v2 hash "
